@@ -21,7 +21,7 @@ payloads — hence for every finite label sequence the same paths, the same payl
 lead nowhere are finding F-C04-a: they are no transition on either side, and the sheet has no trace of them
 (`dangling_label_no_step`); nothing is claimed about "the flow ends there".
 -/
-import Rpft.Lemmas.ExportPaths
+import Rpft.Lemmas.ExportPathsRows
 import Rpft.Props.C04_Graph
 set_option linter.unusedSimpArgs false
 set_option linter.unusedVariables false
@@ -414,22 +414,125 @@ theorem export_deterministic (f : FlowX U) (rows : List (RowT U)) (h : toRowsT f
           rw [ih m (hn.flowStep a.1) ms ms' a.2 b.2]
   rw [key ℓs n hn ms ms' hms hms']
 
-/-! ### what is still missing for the whole property -/
+/-! ### the ROW graph and the FINAL sheet (`--strip_uuids`: no `_nodeId`, every row is its own node) -/
 
-/-- The path-level statement for the FINAL `--strip_uuids` sheet (no `_nodeId` column: every row is its own
-node, `ungrouped_without_node_ids`): a node with several row models comes back as a chain of one-row nodes,
-so a label sequence of the flow corresponds to the sequence with `|rows of the node| - 1` blank labels
-inserted before each label (same payload trace).  The graph-level facts it needs are proved
-(`export_preserves_graph_stripped`: the final graph is the temp-id graph renamed by an injective `σ`);
-the path statement itself is NOT proved here. -/
-def export_paths_stripped_full : Prop :=
-  ∀ (numbered : Bool) (f : FlowX Nat) (out : List RowS), strippedRows numbered f = .ok out →
-    ∃ (rows : List (RowT Nat)) (σ : TempId Nat → Str), toRowsT f = .ok rows ∧
-      ∀ (n : NodeX Nat), Reach f n → ∀ (ℓs : List Label) (ms : List (NodeX Nat)), LPath (FlowStep f) n ℓs ms →
-        ∃ (Ls : List Label) (ts : List Str),
-          LPath (fun a l b => (⟨some a, l, b⟩ : SEdge Str) ∈ edgesOfS out) (σ (firstId n)) Ls ts ∧
-          Ls.filter (· ≠ blankLabel) = ℓs.filter (· ≠ blankLabel) ∧
-          endOf (σ (firstId n)) ts = σ (lastId (endOf n ms))
+/-- **Row-level bisimulation (temp-id sheet).**  Whatever the grouping: the row graph of the exported sheet
+is the flow with every node expanded into the chain of its row models (`RowStepF`: blank step to the next
+row model inside a node, the node's steps from its last row model into the first row model of the
+target).  For every state `p` = (reachable node, row model) and every label sequence: the row graph walks
+`Ls` from the row of `p` through the rows `bs` IFF the expanded flow walks `Ls` from `p` through states
+whose rows are `bs`. -/
+theorem export_row_paths (f : FlowX U) (rows : List (RowT U)) (h : toRowsT f = .ok rows) (p : NodeX U × Nat)
+    (hp : RowState f p) (Ls : List Label) (bs : List (TempId U)) :
+    LPath (EdgeStep (edgesOfT rows)) (rowOf p) Ls bs ↔ ∃ qs, LPath (RowStepF f) p Ls qs ∧ bs = qs.map rowOf := by
+  obtain ⟨n0, items, vis, sk⟩ := export_skeleton f rows h hp.1.ne_nil
+  exact lpath_of_step_iff (RowStepF f) (EdgeStep (edgesOfT rows)) rowOf (RowState f)
+    (fun s hs ℓ t => sk.row_step s hs ℓ t) (fun s ℓ s' hs hst => sk.rowState_step s ℓ s' hs hst) Ls p bs hp
+
+/-- **The FINAL sheet, both id modes.**  The rows `to_rows(numbered)` returns are the temp-id rows renamed by
+a `σ` that is one to one on the states; the graph the compiler reads from the final sheet (`edgesOfS`; with
+`--strip_uuids` there is no `_nodeId` column and every row is its own node, `ungrouped_without_node_ids`)
+starts in the row of (first node, 0), has from the row of every state exactly the steps of the expanded
+flow, carries the state's content — hence walks exactly the label paths of the expanded flow: a node with
+several row models comes back as a chain of one-row nodes linked by blank steps, everything else as it
+was (joins, cycles, self loops, parallel edges). -/
+theorem export_row_paths_final (numbered : Bool) (f : FlowX U) (out : List RowS) (h : strippedRows numbered f = .ok out) :
+    ∃ (rows : List (RowT U)) (σ : TempId U → Str), toRowsT f = .ok rows ∧ out = rows.map (renameRow σ) ∧
+      (∀ p q, RowState f p → RowState f q → σ (rowOf p) = σ (rowOf q) → p = q) ∧
+      (∀ n0, f.head? = some n0 → (⟨none, blankLabel, σ (firstId n0)⟩ : SEdge Str) ∈ edgesOfS out) ∧
+      (∀ p, RowState f p → ∃ c, (σ (rowOf p), c) ∈ nodeRowsS out ∧ rowPayload p = [c]) ∧
+      (∀ p, RowState f p → ∀ ℓ c, EdgeStep (edgesOfS out) (σ (rowOf p)) ℓ c ↔ ∃ q, RowStepF f p ℓ q ∧ c = σ (rowOf q)) ∧
+      (∀ p, RowState f p → ∀ (Ls : List Label) (cs : List Str),
+        LPath (EdgeStep (edgesOfS out)) (σ (rowOf p)) Ls cs ↔
+          ∃ qs, LPath (RowStepF f) p Ls qs ∧ cs = qs.map (fun q => σ (rowOf q))) := by
+  obtain ⟨rows, σ, hr, ho, hst, hinj, hrefs, hE, hN, hO⟩ := export_preserves_graph_stripped numbered f out h
+  have hmem : ∀ p, RowState f p → rowOf p ∈ rows.map (·.id) := by
+    intro p hp
+    obtain ⟨n0, items, vis, sk⟩ := export_skeleton f rows hr hp.1.ne_nil
+    exact sk.rowOf_mem p hp
+  have hstep : ∀ p, RowState f p → ∀ ℓ c, EdgeStep (edgesOfS out) (σ (rowOf p)) ℓ c ↔ ∃ q, RowStepF f p ℓ q ∧ c = σ (rowOf q) := by
+    intro p hp ℓ c
+    obtain ⟨n0, items, vis, sk⟩ := export_skeleton f rows hr hp.1.ne_nil
+    have h1 : EdgeStep (edgesOfS out) (σ (rowOf p)) ℓ c ↔ ∃ b, EdgeStep (edgesOfT rows) (rowOf p) ℓ b ∧ c = σ b := by
+      have hout := hO (rowOf p) (hmem p hp)
+      have hiff : EdgeStep (edgesOfS out) (σ (rowOf p)) ℓ c ↔
+          (⟨some (σ (rowOf p)), ℓ, c⟩ : SEdge Str) ∈ outOf (σ (rowOf p)) (edgesOfS out) := by
+        simp [EdgeStep, outOf]
+      rw [hiff, hout, List.mem_map]
+      constructor
+      · rintro ⟨e, he, heq⟩
+        obtain ⟨he1, he2⟩ := List.mem_filter.1 he
+        simp only [decide_eq_true_eq] at he2
+        obtain ⟨s, l, d⟩ := e
+        simp only at he2
+        subst he2
+        simp only [SEdge.map, Option.map_some, SEdge.mk.injEq, true_and] at heq
+        obtain ⟨rfl, rfl⟩ := heq
+        exact ⟨d, he1, rfl⟩
+      · rintro ⟨b, hb, rfl⟩
+        exact ⟨⟨some (rowOf p), ℓ, b⟩, List.mem_filter.2 ⟨hb, by simp⟩, rfl⟩
+    rw [h1]
+    constructor
+    · rintro ⟨b, hb, rfl⟩
+      obtain ⟨q, hq, rfl⟩ := (sk.row_step p hp ℓ b).1 hb
+      exact ⟨q, hq, rfl⟩
+    · rintro ⟨q, hq, rfl⟩
+      exact ⟨rowOf q, (sk.row_step p hp ℓ _).2 ⟨q, hq, rfl⟩, rfl⟩
+  have hgood : ∀ p ℓ q, RowState f p → RowStepF f p ℓ q → RowState f q := by
+    intro p ℓ q hp hs
+    obtain ⟨n0, items, vis, sk⟩ := export_skeleton f rows hr hp.1.ne_nil
+    exact sk.rowState_step p ℓ q hp hs
+  refine ⟨rows, σ, hr, ho, ?_, ?_, ?_, hstep, ?_⟩
+  · intro p q hp hq heq
+    exact rowOf_inj hp hq (hinj _ (hmem p hp) _ (hmem q hq) heq)
+  · intro n0 h0
+    rw [hE]
+    apply List.mem_map.2
+    refine ⟨startEdge n0, ?_, rfl⟩
+    obtain ⟨order, _, _, hperm, _⟩ := export_preserves_graph f rows hr
+    apply hperm.mem_iff.2
+    simp [h0]
+  · intro p hp
+    obtain ⟨n0, items, vis, sk⟩ := export_skeleton f rows hr hp.1.ne_nil
+    obtain ⟨x, hx, hx1, hx2⟩ := sk.row_payload_mem p hp
+    refine ⟨x.2.2.2, ?_, hx2⟩
+    rw [hN]
+    exact List.mem_map.2 ⟨x, hx, by rw [hx1]⟩
+  · intro p hp Ls cs
+    exact lpath_of_step_iff (RowStepF f) (EdgeStep (edgesOfS out)) (fun q => σ (rowOf q)) (RowState f) hstep hgood Ls p cs hp
+
+/-- a step of the flow is a walk of the expanded flow: through the remaining row models of the node by blank
+steps, then the step itself — the label sequence gets `|rows| - 1` blank labels in front -/
+theorem flowStep_expands (f : FlowX U) (n m : NodeX U) (ℓ : Label) (hs : FlowStep f n ℓ m) (j : Nat) (hj : j < n.rows.length) :
+    LPath (RowStepF f) (n, j) (List.replicate (n.rows.length - 1 - j) blankLabel ++ [ℓ])
+      (((List.range (n.rows.length - 1 - j)).map (fun k => (n, j + 1 + k))) ++ [(m, 0)]) := by
+  generalize hk : n.rows.length - 1 - j = k
+  induction k generalizing j with
+  | zero =>
+    exact ⟨Or.inr ⟨by simp only; omega, rfl, hs⟩, trivial⟩
+  | succ k ih =>
+    have := ih (j + 1) (by omega) (by omega)
+    rw [List.replicate_succ, List.range_succ_eq_map]
+    simp only [List.map_cons, List.cons_append, List.map_map]
+    refine ⟨Or.inl ⟨rfl, rfl, by simp only; omega, rfl⟩, ?_⟩
+    have hfun : ((fun k => (n, j + 1 + k)) ∘ Nat.succ) = (fun k => (n, j + 1 + 1 + k)) := by
+      funext k; simp only [Function.comp]; congr 1; omega
+    rw [Nat.add_zero, hfun]
+    exact this
+
+/-! ### what is still missing -/
+
+/-- NOT proved: the GROUP-level statement for the final sheet that KEEPS its `_nodeId` column (`to_rows`
+without `--strip_uuids`).  `export_paths` is about the temp-id sheet; the final ids are the temp ids renamed
+by the injective `σ` of `export_row_paths_final`, and the row graph is the renamed row graph (proved), so what
+is missing is only that the compiler's merge rule commutes with an injective renaming of the row ids: -/
+def final_grouping_renamed_full : Prop :=
+  ∀ (rows : List (RowT Nat)) (σ : TempId Nat → Str),
+    (∀ a ∈ rows.map (·.id), ∀ b ∈ rows.map (·.id), σ a = σ b → a = b) →
+    (∀ r ∈ rows, RowRefs (rows.map (·.id)) r) →
+    groupRows ((rows.filter (fun r => r.goto.isEmpty)).map
+        (fun r => (σ r.id, r.nodeId, r.cells.map (fun c => (c.1.map σ, c.2))))) =
+      (groupsT rows).map (fun p => (σ p.1, σ p.2))
 
 /-! ### non-vacuity and negative witnesses (kernel-evaluated) -/
 
@@ -547,6 +650,40 @@ example (js js' : List (TempId Nat)) (h1 : LPath (sheetT rowsG).Step (firstId gA
 node, the sheet has none (it has no group for it) -/
 theorem needs_reachable_step :
     FlowStep exG gZ [] gA ∧ ¬ (sheetT rowsG).Step (firstId gZ) [] (firstId gA) ∧ (sheetT rowsG).groupOf (firstId gZ) = [] := by
+  decide +kernel
+
+/-! #### the row graph of the final sheet -/
+
+instance (f : FlowX Nat) (p : NodeX Nat × Nat) (ℓ : Label) (q : NodeX Nat × Nat) : Decidable (RowStepF f p ℓ q) := by
+  unfold RowStepF; infer_instance
+
+/-- the final numbered sheet of `exG` (what `--strip_uuids` writes) -/
+def outGn : List RowS := (strippedRows true exG).toOption.getD []
+theorem outGn_ok : strippedRows true exG = .ok outGn := by decide +kernel
+
+/-- the same walk at the row level: the two-row node msg.a is a chain of two one-row nodes (a blank step
+between them), the self loop, the cycle and the join are as in the flow -/
+def rowLabels : List Label := [[], [], "c5".toList, "c6".toList, [], [], "c1".toList, []]
+theorem exG_row_path :
+    LPath (RowStepF exG) (gA, 0) rowLabels [(gA, 1), (gX, 0), (gX, 0), (gA, 0), (gA, 1), (gX, 0), (gB, 0), (gC, 0)] ∧
+    LPath (EdgeStep (edgesOfS outGn)) "1".toList rowLabels (["2", "3", "3", "1", "2", "3", "4", "5"].map String.toList) ∧
+    nodeRowsS outGn = [("1", "a1"), ("2", "a2"), ("3", "w"), ("4", "b"), ("5", "c")].map (fun x => (x.1.toList, x.2.toList)) := by
+  decide +kernel
+
+/-- non-vacuity of `export_row_paths` / `export_row_paths_final` / `flowStep_expands` -/
+example : ∃ qs, LPath (RowStepF exG) (gA, 0) rowLabels qs ∧
+    [(gA, 1), (gX, 0), (gX, 0), (gA, 0), (gA, 1), (gX, 0), (gB, 0), (gC, 0)].map rowOf = qs.map rowOf :=
+  (export_row_paths exG rowsG rowsG_ok (gA, 0) ⟨reach_gA, by decide⟩ rowLabels _).1 (by decide +kernel)
+example : ∃ (rows : List (RowT Nat)) (σ : TempId Nat → Str), toRowsT exG = .ok rows ∧ outGn = rows.map (renameRow σ) := by
+  obtain ⟨rows, σ, h1, h2, _⟩ := export_row_paths_final true exG outGn outGn_ok
+  exact ⟨rows, σ, h1, h2⟩
+example : LPath (RowStepF exG) (gA, 0) [[], []] [(gA, 1), (gX, 0)] :=
+  flowStep_expands exG gA gX [] (by decide +kernel) 0 (by decide)
+
+/-- a state must be a row model of a REACHABLE node: the unreachable node of `exG` has a step in the
+expanded flow, its row has none in the sheet (it has no row) -/
+theorem needs_row_state :
+    RowStepF exG (gZ, 0) [] (gA, 0) ∧ ¬ EdgeStep (edgesOfT rowsG) (rowOf (gZ, 0)) [] (rowOf (gA, 0)) := by
   decide +kernel
 
 end Rpft.Props.C04
